@@ -192,7 +192,12 @@ def render_func(f: dict, indent: str, imports: ref.Imports, here: str) -> list[s
     out += render_doc(f.get("doc"), inner)
     for a in f.get("init_attrs", []):
         recv = f.get("recv") or "self"
-        if a.get("ann") is not None:
+        if a.get("form") == "tuple_with_local":
+            # 'self.x, _local = value, 0': an instance attribute next to a plain (private) name in one tuple target
+            out.append(f"{inner}{recv}.{a['name']}, _loc_{a['name'].strip('_')} = {a.get('value') or 'None'}, 0")
+        elif a.get("form") == "local_first":
+            out.append(f"{inner}_loc_{a['name'].strip('_')}, {recv}.{a['name']} = 0, {a.get('value') or 'None'}")
+        elif a.get("ann") is not None:
             out.append(f"{inner}{recv}.{a['name']}: {ref.render_py(a['ann'], imports, here)} = {a.get('value') or 'None'}")
         else:
             out.append(f"{inner}{recv}.{a['name']} = {a.get('value') or 'None'}")
